@@ -14,7 +14,7 @@
 from __future__ import annotations
 
 import ast
-from typing import Any, Dict, List, Optional, Set
+from typing import FrozenSet, Any, Dict, List, Optional, Set
 
 from engine.srcmatch import U
 from engine.forms import FOLDED, SEP_TERMINATED, SLASHED, FormEnv
@@ -146,7 +146,20 @@ def run(ctx: Any, prog: Program) -> None:
             scope_fns = [fn] + [ms[c.func.attr] for c in walk_no_nested(fn) if isinstance(c, ast.Call) and isinstance(c.func, ast.Attribute) and dotted(c.func.value) == 'self'
                                and c.func.attr in ms and c.func.attr.startswith('_') and not c.func.attr.startswith('__') and c.func.attr not in ('_get_file', '_file_exists', '_clean_path')]
             for sfn in scope_fns:
-              senv = env if sfn is fn else FormEnv(sfn, call_forms=call_forms)
+              if sfn is fn:
+                  senv = env
+              else:
+                  # a private helper sees its parameters in the form every caller in the class hands them over (`self._lookup(name.replace(..))`)
+                  pf_: Dict[str, FrozenSet[str]] = {}
+                  hparams_ = [a.arg for a in sfn.args.args[1:]]
+                  for cm_, cf_ in ms.items():
+                      cenv_ = env if cf_ is fn else FormEnv(cf_, call_forms=call_forms)
+                      for c_ in walk_no_nested(cf_):
+                          if isinstance(c_, ast.Call) and isinstance(c_.func, ast.Attribute) and dotted(c_.func.value) == 'self' and c_.func.attr == sfn.name:
+                              for i_, a_ in enumerate(c_.args[:len(hparams_)]):
+                                  fm_ = cenv_.form(a_)
+                                  pf_[hparams_[i_]] = fm_ if hparams_[i_] not in pf_ else pf_[hparams_[i_]] & fm_
+                  senv = FormEnv(sfn, call_forms=call_forms, param_forms=pf_)
               for n in walk_no_nested(sfn):
                 if isinstance(n, ast.Subscript) and dotted(n.value) == f'self.{index}':
                     sites.append((n, n.slice, senv))
@@ -265,13 +278,35 @@ def run(ctx: Any, prog: Program) -> None:
     ctx.rule('C19.H6', 'ZipFileSystem opens archive members by a ZipInfo from its folded index, never by ZipFile name lookups', floor=1)
     zm = fs.methods('ZipFileSystem')
     n_h6 = 0
+
+    def _idx_entry(d: ast.AST, depth: int = 0) -> bool:
+        if isinstance(d, ast.Call) and dotted(d.func) == 'self._get_data':
+            return True
+        if isinstance(d, ast.Subscript) and dotted(d.value) == 'self._name_to_info':
+            return True
+        if isinstance(d, ast.Call) and isinstance(d.func, ast.Attribute) and d.func.attr == 'get' and dotted(d.func.value) == 'self._name_to_info':
+            return True
+        # a private lookup helper of the class whose every return is an index entry
+        if isinstance(d, ast.Call) and isinstance(d.func, ast.Attribute) and dotted(d.func.value) == 'self' and d.func.attr in zm and depth < 2:
+            rets_ = [r for r in walk_no_nested(zm[d.func.attr]) if isinstance(r, ast.Return)]
+            hdefs_: Dict[str, List[ast.AST]] = {}
+            for a_ in walk_no_nested(zm[d.func.attr]):
+                if isinstance(a_, ast.Assign) and len(a_.targets) == 1 and isinstance(a_.targets[0], ast.Name):
+                    hdefs_.setdefault(a_.targets[0].id, []).append(a_.value)
+            def _ret_ok(v: Optional[ast.AST]) -> bool:
+                if v is None:
+                    return False
+                if isinstance(v, ast.Name) and v.id in hdefs_:
+                    return all(_idx_entry(x, depth + 1) for x in hdefs_[v.id])
+                return _idx_entry(v, depth + 1)
+            return bool(rets_) and all(_ret_ok(r.value) for r in rets_)
+        return False
     for mn_, mf_ in zm.items():
         info_names: Set[str] = set()
         for a in ast.walk(mf_):
             if isinstance(a, ast.Assign) and len(a.targets) == 1 and isinstance(a.targets[0], ast.Name):
                 v = a.value
-                if (isinstance(v, ast.Call) and dotted(v.func) == 'self._get_data') or (isinstance(v, ast.Subscript) and dotted(v.value) == 'self._name_to_info') \
-                        or (isinstance(v, ast.Call) and isinstance(v.func, ast.Attribute) and v.func.attr == 'get' and dotted(v.func.value) == 'self._name_to_info'):
+                if _idx_entry(v):
                     info_names.add(a.targets[0].id)
             if isinstance(a, (ast.For, ast.comprehension)) and any(k in U(a.iter) for k in ('self._name_to_info', 'self.zip.infolist()')):
                 info_names |= {x.id for x in ast.walk(a.target) if isinstance(x, ast.Name)}
@@ -286,11 +321,10 @@ def run(ctx: Any, prog: Program) -> None:
                 if isinstance(a0, ast.Name) and a0.id in info_names:
                     # every definition of the name is an index entry?
                     defs_ = [a.value for a in ast.walk(mf_) if isinstance(a, ast.Assign) and any(isinstance(t, ast.Name) and t.id == a0.id for t in a.targets)]
-                    bad_ = [d for d in defs_ if not ((isinstance(d, ast.Call) and dotted(d.func) == 'self._get_data') or (isinstance(d, ast.Subscript) and dotted(d.value) == 'self._name_to_info')
-                                                     or (isinstance(d, ast.Call) and isinstance(d.func, ast.Attribute) and d.func.attr == 'get' and dotted(d.func.value) == 'self._name_to_info'))]
+                    bad_ = [d for d in defs_ if not _idx_entry(d)]
                     ctx.check('C19.H6', not bad_, fs, bad_[0] if bad_ else c, f'ZipFileSystem.{mn_} opens `{a0.id}`, which on one path is `{U(bad_[0])[:50] if bad_ else ""}` and not an entry of the folded index', func=f'ZipFileSystem.{mn_}',
                               text=f'{mn_}: `{U(c)[:40]}` opens an index entry')
-                elif isinstance(a0, (ast.Subscript,)) and dotted(a0.value) == 'self._name_to_info' or (isinstance(a0, ast.Call) and dotted(a0.func) == 'self._get_data'):
+                elif _idx_entry(a0):
                     ctx.check('C19.H6', True, fs, c, 'index entry', func=f'ZipFileSystem.{mn_}', text=f'{mn_}: `{U(c)[:40]}` opens an index entry')
                 else:
                     ctx.shape('C19.H6', False, fs, c, f'what `{U(a0)[:40]}` handed to self.zip.{c.func.attr}() is was not recognised (expected: a ZipInfo from self._name_to_info or self._get_data)', func=f'ZipFileSystem.{mn_}',
